@@ -118,6 +118,8 @@ class _Env:
 class _Frame:
     """One function activation during symbolic evaluation."""
 
+    resolve_locals = False
+
     def __init__(self, ctx: Ctx, self_term, self_cls: Optional[ClassInfo], depth: int):
         self.ctx = ctx
         self.self_term = self_term
@@ -172,6 +174,7 @@ class Sym:
         for k, v in (env or {}).items():
             e.set(k, v)
         fr = _Frame(ctx, self_term if ctx.recv is not None else None, ctx.recv[1] if ctx.recv else None, 0)
+        fr.resolve_locals = True
         return normalise(self.ev(node, e, fr))
 
     def local_term(self, func: FuncInfo, recv, var: str, at_end=True) -> tuple:
@@ -608,10 +611,56 @@ class Sym:
             return lit(node.value)
         return opaque(node)
 
+    def _local_defs(self, func: FuncInfo) -> Dict[str, list]:
+        d = getattr(func, '_local_defs', None)
+        if d is None:
+            d = {}
+            for n in self.typer.own_nodes(func):
+                if isinstance(n, ast.Assign):
+                    for t in n.targets:
+                        if isinstance(t, ast.Name):
+                            d.setdefault(t.id, []).append(('assign', n.value))
+                        else:
+                            for x in ast.walk(t):
+                                if isinstance(x, ast.Name) and isinstance(x.ctx, ast.Store):
+                                    d.setdefault(x.id, []).append(('other', n))
+                elif isinstance(n, ast.AnnAssign) and isinstance(n.target, ast.Name) and n.value is not None:
+                    d.setdefault(n.target.id, []).append(('assign', n.value))
+                elif isinstance(n, (ast.AugAssign, ast.For, ast.AsyncFor, ast.comprehension)):
+                    for x in ast.walk(n.target):
+                        if isinstance(x, ast.Name):
+                            d.setdefault(x.id, []).append(('other', n))
+                elif isinstance(n, (ast.With, ast.AsyncWith)):
+                    for item in n.items:
+                        if isinstance(item.optional_vars, ast.Name):
+                            d.setdefault(item.optional_vars.id, []).append(('with', item.context_expr))
+                elif isinstance(n, ast.NamedExpr) and isinstance(n.target, ast.Name):
+                    d.setdefault(n.target.id, []).append(('assign', n.value))
+            func._local_defs = d
+        return d
+
     def _ev_Name(self, node, env, fr):
         v = env.get(node.id)
         if v is not None:
             return v
+        # flow-insensitive resolution of a single-assignment local (used when evaluating an isolated expression)
+        if getattr(fr, 'resolve_locals', False):
+            f = fr.ctx.func
+            while f is not None:
+                defs = self._local_defs(f).get(node.id)
+                if defs:
+                    key = ('local', f.qualname, node.id)
+                    if len(defs) == 1 and defs[0][0] in ('assign', 'with') and key not in self._stack and node.id not in f.params:
+                        self._stack.append(key)
+                        try:
+                            sub = _Frame(Ctx(f, fr.ctx.recv), fr.self_term, fr.self_cls, fr.depth)
+                            sub.resolve_locals = True
+                            t = self.ev(defs[0][1], env, sub)
+                            return t if defs[0][0] == 'assign' else ('call', 'with', (t,))
+                        finally:
+                            self._stack.pop()
+                    return ('local', node.id)
+                f = f.parent
         r = self.prog.resolve_global(fr.ctx.func.module, node.id)
         if r is not None:
             if r[0] == 'class':
@@ -799,8 +848,8 @@ class Sym:
         return out or None
 
     def _exact(self, node, fr) -> bool:
-        from .callgraph import CallGraph
-        return CallGraph._is_exact_receiver(self, node, fr.ctx)
+        from .callgraph import is_exact_receiver
+        return is_exact_receiver(self.typer, node, fr.ctx)
 
     # ---- attributes
     def _ev_Attribute(self, node, env, fr):
